@@ -78,6 +78,9 @@ class Ref:
             pass
 
 
+FALSY = ['', 0, False, (), 0.0]
+
+
 def binding_shapes(R, ctx):
     """part 1: exhaustive over the signatures"""
     bse = import_bse()
@@ -123,6 +126,26 @@ def binding_shapes(R, ctx):
                             R.violation('unbindable_gets_key', 'memo._make_key', 'a call Python cannot bind gets a cache key', w)
                         elif got[0] == 'raise' and got[1] != 'TypeError':
                             R.violation('unbindable_gets_key', 'memo._make_key', 'an unbindable call raises %s instead of TypeError' % got[1], w)
+                    # the same shape with falsy argument values ('' is a legitimate data_dir, 0 a legitimate version): the key must still
+                    # be the bound vector — a key builder that tests values for truth instead of presence would substitute defaults
+                    fpos = [FALSY[i % len(FALSY)] for i in range(len(pos))]
+                    fkw = {k: FALSY[(i + len(pos)) % len(FALSY)] for i, k in enumerate(ks)}
+                    try:
+                        fba = sig.bind(*fpos, **fkw)
+                        fba.apply_defaults()
+                        fbound = list(fba.arguments.values())
+                    except TypeError:
+                        fbound = None
+                    if fbound is not None:
+                        R.ev()
+                        try:
+                            fkey = memo._make_key(spec, *fpos, **fkw)
+                            fgot = None if fkey is None else pickle.loads(fkey)
+                        except Exception as e:
+                            fgot = 'raise ' + type(e).__name__
+                        if fgot is None or isinstance(fgot, str) or [repr(x) for x in fgot] != [repr(x) for x in fbound]:
+                            R.violation('key_is_binding', 'memo._make_key', 'with falsy argument values the key differs from the argument vector Python binds',
+                                        dict(w, values='falsy', key=str(fgot)[:80], bound=str(fbound)[:80]))
                     if ctx.model_ok:
                         reqs.append(dict(op='make_key', args=params, defaults=[900 + i for i in range(nd)], pos=pos, kw=[[k, v] for k, v in kw.items()]))
                         meta.append((w, got, bound, spec.defaults or ()))
